@@ -17,6 +17,7 @@ SEARCH = {
     "C05": [["validate"]],
     "C11": [["escape", "both", "3"]],
     "C16": [["config"]],
+    "C08": [["c08", "4"]],
 }
 THOROUGH = {
     "C01": [["diff", "C01", "3", "4"]],
@@ -26,6 +27,7 @@ THOROUGH = {
     "C05": [["validate"]],
     "C11": [["axioms"], ["escape", "both", "4"]],
     "C16": [["config"]],
+    "C08": [["c08", "6"]],
 }
 
 
